@@ -284,6 +284,12 @@ class SigmaWideModifier(SigmaValueModifier[SigmaString, SigmaString]):
     """Encode string as wide string (UTF-16LE)."""
 
     def modify(self, val: SigmaString) -> SigmaString:
+        if val.contains_placeholder():
+            # The text a placeholder is replaced with later would not be encoded.
+            raise SigmaValueError(
+                "Wide modifier can't be applied to strings with placeholders",
+                source=self.source,
+            )
         r: list[SigmaStringPartType] = list()
         for item in val.s:
             if isinstance(
@@ -308,6 +314,12 @@ class SigmaUTF16BEModifier(SigmaValueModifier[SigmaString, SigmaString]):
     """Encode string as wide string (UTF-16BE)."""
 
     def modify(self, val: SigmaString) -> SigmaString:
+        if val.contains_placeholder():
+            # The text a placeholder is replaced with later would not be encoded.
+            raise SigmaValueError(
+                "UTF-16BE modifier can't be applied to strings with placeholders",
+                source=self.source,
+            )
         r: list[SigmaStringPartType] = list()
         for item in val.s:
             if isinstance(item, str):
@@ -330,6 +342,12 @@ class SigmaUTF16Modifier(SigmaValueModifier[SigmaString, SigmaString]):
     """Encode string as wide string with BOM (UTF-16LE with BOM prefix)."""
 
     def modify(self, val: SigmaString) -> SigmaString:
+        if val.contains_placeholder():
+            # The text a placeholder is replaced with later would not be encoded.
+            raise SigmaValueError(
+                "UTF-16 modifier can't be applied to strings with placeholders",
+                source=self.source,
+            )
         r: list[SigmaStringPartType] = list()
         r.append("\ufeff")  # BOM
         for item in val.s:
